@@ -272,7 +272,7 @@ def rule_chain_j(chk, py, tus):
             if v not in cases:
                 continue  # reported by totality
             c = cases[v]
-            ch.hop("case-label", F_COEFS, f, v, c["label"], c["line"], "#define %s %s (case label)" % (c["label"], v))
+            ch.hop("case-label", F_COEFS, f, v, c["label"], c["line"], "%s = %s (constant of the case label)" % (c["label"], v))
             ch.hop("case-fill", F_COEFS, f, c["label"], c["fill"][0] if len(c["fill"]) == 1 else tuple(c["fill"]), c["line"],
                    "case %s: %s" % (c["label"], " ".join("%s(%s)" % (m, ",".join(a)) for m, a in c["macro_call"])))
             results[(f, lst, s)] = (ch, c)
